@@ -161,7 +161,12 @@ pub fn felt_hex(f: &Felt) -> String {
 }
 
 pub fn felt_of(v: &Value) -> Option<Felt> {
-    v.as_str().and_then(|s| Felt::from_hex(s).ok())
+    let s = v.as_str()?;
+    let digits = s.strip_prefix("0x")?;
+    if digits.is_empty() || digits.len() > 64 || !digits.bytes().all(|b| b.is_ascii_hexdigit()) {
+        return None;
+    }
+    Felt::from_hex(s).ok()
 }
 
 /// Upper bound of the integer type behind a numeric position (by field name).
